@@ -41,7 +41,7 @@ EXTENDS Naturals, Sequences, FiniteSets, TLC
 
 CONSTANTS
     MaxDepth,     \* histories of at most this many calls
-    BaseSel,      \* "memo" | "graph" | "core" | "quickcore" | "all" | "god" | "godall" : which bases the model explores
+    BaseSel,      \* "memo" | "graph" | "core" | "quickcore" | "all" | "all2" | "god" | "godall" : which bases the model explores
     LaySel,       \* "C" | "all"      : which memory layouts
     ProjKeyMode,  \* "full" | "no_from"      : _projection_cache key
     DbetaKeyMode, \* "full" | "len_only"     : _dbeta_cache key
@@ -487,6 +487,7 @@ Bases == CASE BaseSel = "memo" -> MemoBases
            [] BaseSel = "core" -> CoreBases
            [] BaseSel = "god" -> {"fim_A", "fim_B", "fim_A_named"}
            [] BaseSel = "godall" -> GodB0
+           [] BaseSel = "all2" -> AllBases \ ContainerB      \* (the 2-call graph over every layout: container variants are left to the 1-call graph)
            [] OTHER -> AllBases
 CallOK(c) == /\ c.lay \in PhiLays(c.b) /\ c.xl \in XLays(c.b)
              /\ (LaySel = "C" => c.lay = "C" /\ c.xl = "C")
